@@ -141,7 +141,7 @@ func c17Point(r *core.Result, xv *big.Int, largest bool) {
 func init() {
 	core.Register(&core.Check{
 		ID: "C17", Level: "exploration",
-		Rule:   "invSqrtEqDyadic depends on its argument only through an element g^e of the 2^32-th roots of unity: thorough enumerates ALL 2^32 exponents e, quick every 8-bit value of each of the 4 dlog blocks x the other blocks in {00,01,80,FF} and all 2^16 values of the two low blocks; SqrtPrecomp on g^e*h for the quick e-set x 8 odd-order h, all v in [0,2^16) (2^20 thorough), the 33 dyadic roots, 0, p-1; GetPointFromX on all x in [0,2^16) (2^18 thorough) x both sign flags plus boundary x; non-trivial = a residue / an existing point (squares and non-squares occur in equal share by construction)",
+		Rule:   "invSqrtEqDyadic depends on its argument only through an element g^e of the 2^32-th roots of unity: thorough enumerates ALL 2^32 exponents e, quick every 8-bit value of each of the 4 dlog blocks x the other blocks in {00,01,80,FF} and all 2^16 values of the two low blocks; SqrtPrecomp on g^e*h for the quick e-set x 8 odd-order h, all v in [0,2^16) (2^20 thorough), the 33 dyadic roots, 0, p-1; an earlier root must stay valid after later calls; GetPointFromX on all x in [0,2^16) (2^18 thorough) x both sign flags plus boundary x; non-trivial = a residue / an existing point (squares and non-squares occur in equal share by construction)",
 		Assume: []string{"oracle: math/big Jacobi symbol, squaring and the curve equation", "g^e is assembled from four 256-entry tables computed with math/big"},
 		Units:  c17Units,
 	})
